@@ -75,6 +75,15 @@ def stmt_lines(kind, k, ref=None):
         return ['dd%d = {' % k, '    "a": t(%d),' % k, '}']
     if kind == 'tripbare':
         return ['zb%d = """l1' % k, 'l2""" + str(t(%d))' % k]
+    if kind == 'asynccomp':
+        # an async comprehension at the top level of a part, with no `await` / `async for` / `async with` STATEMENT next to it:
+        # the part still compiles to a coroutine and must be driven to completion
+        return ['ac%d = [x + 1 async for x in agen(t(%d))]' % (k, k)]
+    if kind == 'asyncdictcomp':
+        return ['ad%d = {x: len([y async for y in agen(x)]) async for x in agen(t(%d))}' % (k, k)]
+    if kind == 'tripws':
+        # a line of a string literal that ENDS IN BLANKS (significant: they are part of the value)
+        return ['zw%d = """l1   ' % k, 'l2""" + str(t(%d))' % k]
     if kind == 'starimport':
         return ['from %s import *' % ['os.path', 'math', 'string'][k % 3]]
     if kind == 'directive':
@@ -98,7 +107,7 @@ def value_want(s):
 
 
 EXPR_KINDS = {'print', 'expr', 'strexpr', 'both', 'multiexpr', 'multiprint', 'awaitexpr'} | VALUE_KINDS
-SINGLE_LINE = {'kwcomment', 'skipcomment', 'raise', 'printraise', 'callraise', 'assign', 'print', 'expr', 'strexpr', 'both', 'print2', 'semicolon', 'await', 'awaitexpr', 'comment',
+SINGLE_LINE = {'kwcomment', 'skipcomment', 'raise', 'printraise', 'callraise', 'assign', 'print', 'expr', 'strexpr', 'both', 'print2', 'semicolon', 'await', 'awaitexpr', 'asynccomp', 'asyncdictcomp', 'comment',
                'starimport', 'directive'} | VALUE_KINDS
 COMPOUND = {'compoundraise', 'compound', 'forloop', 'classdef', 'decorated', 'decorated2', 'asyncdef', 'deffn', 'with', 'corodef', 'gendef', 'agendef',
             'awaitabledef'}
@@ -113,8 +122,8 @@ def traceback_want(s):
 KINDS = ['assign', 'print', 'expr', 'strexpr', 'both', 'multi', 'multiexpr', 'multiprint', 'compound', 'decorated',
          'classdef', 'tripstr', 'tripbare', 'print2', 'backslash', 'semicolon', 'forloop', 'lambda', 'multicomment',
          'asyncdef', 'deffn', 'dictml', 'await', 'awaitexpr', 'comment', 'kwcomment', 'with', 'multicomment0', 'decorated2',
-         'corocall', 'gencall', 'agencall', 'awaitableval', 'funcvalue', 'lambdavalue']
-ASYNC_KINDS = {'await', 'awaitexpr'}
+         'corocall', 'gencall', 'agencall', 'awaitableval', 'funcvalue', 'lambdavalue', 'tripws', 'asynccomp', 'asyncdictcomp']
+ASYNC_KINDS = {'await', 'awaitexpr', 'asynccomp', 'asyncdictcomp'}
 # an inline directive sits on the statement's only line, or on the FIRST line of a multi-line one (e.g. a decorator)
 INLINE_OK = {'assign', 'print', 'expr', 'semicolon', 'multi', 'decorated', 'decorated2', 'compound', 'classdef', 'deffn', 'asyncdef',
              'multiexpr', 'multiprint', 'dictml', 'forloop', 'corodef', 'corocall', 'gencall'}
